@@ -247,6 +247,43 @@ def run(ctx):
                     certificate(ctx, N, W, S, lam, 1, rec, case, None)
             ctx.count("budget-sweep")
         hist["budget_sweep_worst_iterations"] = worst
+        # (e) end to end: the MRF a cluster carries after the optimise phase of ANY round is the optimum for ITS OWN covariance -
+        #     the solver's (certified) answer to that cluster's covariance - under ordinary and under adverse schedules of the
+        #     worker pool (later tasks finishing first; a task that still looks unfinished when the parent first asks)
+        from .. import e2e as _e2e
+        from fast_ticc import matrix_compression as _mc
+        e_cfgs = [dict(N=2, W=2, K=3, beta=4.0, lam=0.11, limit=3, m=2, biased=False, eps=0, joint=False, lengths=[120], regimes=3, data_seed=210, rng_seed=210),
+                  dict(N=2, W=2, K=3, beta=4.0, lam=0.11, limit=3, m=2, biased=False, eps=0, joint=False, lengths=[120], regimes=3, data_seed=211, rng_seed=211,
+                       mp=True, procs=3, delays=[0.35, 0.0, 0.0]),
+                  dict(N=1, W=3, K=4, beta=2.0, lam=0.3, limit=2, m=2, biased=True, eps=0, joint=True, lengths=[70, 60], regimes=3, data_seed=212, rng_seed=212,
+                       mp=True, procs=4, delays=[0.45, 0.3, 0.15, 0.0]),
+                  dict(N=2, W=1, K=3, beta=4.0, lam=0.11, limit=3, m=2, biased=False, eps=0, joint=False, lengths=[110], regimes=3, data_seed=213, rng_seed=213,
+                       stall=(3, 3))]
+        for r_ in _e2e.cached_runs(ctx, e_cfgs[: ctx.budget(4, 4)], "c02"):
+            cfg_ = r_["cfg"]
+            if r_["error"] is not None:
+                continue
+            for ev in [e for e in r_["events"] if e["event"] == "phase" and e["phase"] == "optimise"]:
+                for k_, c_ in enumerate(ev["state"]["clusters"]):
+                    S_ = c_["empirical_covariance"]
+                    if S_ is None or c_["train_inverse"] is None:
+                        continue
+                    case = {"cfg": {kk: vv for kk, vv in cfg_.items()}, "round": ev["round"], "cluster": k_, "N": cfg_["N"], "W": cfg_["W"], "lam": cfg_["lam"],
+                            "S_hex": [[float(v).hex() for v in row] for row in np.atleast_2d(S_)]}
+                    rec = None
+                    with ctx.guard("admm_optimize_theta", case):
+                        rec = admm_tie.record_solver_run(cfg_["N"], cfg_["W"], np.array(S_, dtype=float, copy=True), cfg_["lam"])
+                    ctx.count("e2e-cluster-mrf")
+                    if cfg_.get("delays") or cfg_.get("stall"):
+                        ctx.mark_nontrivial(("adverse schedule", cfg_["data_seed"], ev["round"], k_))
+                    if rec is None or rec["exit"] is None:
+                        continue
+                    if rec["stop"] is not None:
+                        certificate(ctx, cfg_["N"], cfg_["W"], np.array(S_, dtype=float), cfg_["lam"], 1, rec, case, None)
+                    own = _mc.reinflate_matrix(rec["theta"])
+                    if not np.allclose(own, c_["train_inverse"], rtol=1e-9, atol=1e-12):
+                        ctx.violation("monitor", "round %d: the MRF stored for cluster %d is not the optimum for that cluster's own covariance (max diff %.3g from the solver's answer to it)"
+                                      % (ev["round"], k_, float(np.max(np.abs(own - c_["train_inverse"])))), {"case": case})
     ctx.coverage["distribution"] = hist
     core.anchored_check(ctx, ANCHORS, cov, ignore=("raise ValueError", "LOGGER.debug", "Lambda parameter", "either a float"))
     ctx.sample({"kind": "soft", "case": cases["soft"][0][1]})
